@@ -178,7 +178,12 @@ func report(prop, tier string, seed int, specs []HarnessSpec, known []KnownFindi
 		}
 	}
 
-	// replay-confirm violations
+	// replay-confirm violations (stale replay files of this property go first)
+	if old, _ := filepath.Glob(filepath.Join(verifDir, "evidence", "replays", prop+"-*")); len(old) > 0 && len(specBy) > 0 {
+		for _, f := range old {
+			os.Remove(f)
+		}
+	}
 	exit := 0
 	var violLines, knownLines []string
 	replayed, reproduced := 0, 0
